@@ -2366,6 +2366,30 @@ pub fn inmsg_of(m: &minimq::InboundPublish<'_>) -> InMsg {
             }),
         }
     }
+    // the application may look twice, and through the shortcuts: a second pass over the properties must give the
+    // same list, and response_topic() / correlation_data() must name the first such property (a marker property
+    // that no broker sends makes any disagreement show up as "delivered differs from sent")
+    let mut again = Vec::new();
+    for p in m.properties().iter() {
+        match p {
+            Ok(p) => again.push(crate::convert::prop_to_ref(&p)),
+            Err(_) => again.push(mr::Prop { id: 0xFF, val: mr::PVal::Byte(0) }),
+        }
+    }
+    if again != props {
+        props.push(mr::Prop { id: 0xFE, val: mr::PVal::Byte(2) });
+    }
+    let first_rt = props.iter().find_map(|p| match (&p.id, &p.val) {
+        (0x08, mr::PVal::Str(s)) => Some(s.clone()),
+        _ => None,
+    });
+    let first_cd = props.iter().find_map(|p| match (&p.id, &p.val) {
+        (0x09, mr::PVal::Bin(b)) => Some(b.clone()),
+        _ => None,
+    });
+    if m.response_topic().map(|t| t.as_bytes().to_vec()) != first_rt || m.correlation_data().map(|d| d.to_vec()) != first_cd {
+        props.push(mr::Prop { id: 0xFD, val: mr::PVal::Byte(3) });
+    }
     InMsg {
         qos: m.qos() as u8,
         retain: m.retained(),
